@@ -381,7 +381,9 @@ class FeArray(np.ndarray):
         _parent = getattr(np.ndarray, _name)
 
         def _reducer(self, *args, **kwargs):
-            res = _parent(self, *args, **kwargs)
+            # on the plain view: numpy's own helpers (e.g. `arr - mean` in var) must broadcast
+            # the plain way
+            res = _parent(self.view(np.ndarray), *args, **kwargs)
             axis = kwargs.get("axis", args[0] if args else None)
             if _KeepsFeAxes(axis, self.ndim) and getattr(res, "ndim", 0) >= 2:
                 return res.view(FeArray)
